@@ -48,7 +48,7 @@ QUICK_EXTRA = {"C01": ["release-plain"], "C06": ["release-plain"], "C07": ["rele
 MIRI_SHARDS = NCPU
 MIRI_CASES = {"default": 400, "C09": 60, "C16": 2000}
 MIRI_SECONDS = 240
-MEMCHECK_CASES = {"quick": 150, "thorough": 1500}
+MEMCHECK_CASES = {"quick": 150, "thorough": 6000}
 
 
 class Env:
